@@ -85,7 +85,9 @@ func c10(c *Ctx) {
 	}
 	if fn := c.Fn(suppressPkg, "", "calculateBESuppressCPUSetPolicy"); fn != nil {
 		c10progress(c, fn)
+		c10distinct(c, fn)
 	}
+	c10makeAppend(c, suppressPkg, "pkg/util/cpuset", "pkg/koordlet/qosmanager/helpers")
 }
 
 // c10progress: each selection loop of calculateBESuppressCPUSetPolicy starts with a fresh no-progress marker.
@@ -125,6 +127,168 @@ func c10progress(c *Ctx, fn *ssa.Function) {
 		}
 	}
 	r.Floor("PATH", "no-progress loops in calculateBESuppressCPUSetPolicy", n, 2)
+}
+
+// variadicElems returns the values stored into the variadic slice v (a Slice of a local array).
+func variadicElems(v ssa.Value) []ssa.Value {
+	sl, ok := v.(*ssa.Slice)
+	if !ok {
+		return nil
+	}
+	a, ok := sl.X.(*ssa.Alloc)
+	if !ok {
+		return nil
+	}
+	var out []ssa.Value
+	for _, ref := range *a.Referrers() {
+		if ia, ok := ref.(*ssa.IndexAddr); ok {
+			for _, r2 := range *ia.Referrers() {
+				if st, ok := r2.(*ssa.Store); ok {
+					out = append(out, st.Val)
+				}
+			}
+		}
+	}
+	return out
+}
+
+// c10distinct: every CPU handed out is marked used and counted.
+func c10distinct(c *Ctx, fn *ssa.Function) {
+	r := c.R
+	r.Rule("PATH(distinct): in calculateBESuppressCPUSetPolicy each append of k CPU ids to the result is accompanied, in the same block, by usedCpu[id] = true for every appended id and by needCPUs decreasing by exactly k (an unmarked id can be picked again: the result contains a duplicate and BE silently gets one CPU less)")
+	n := 0
+	for _, cl := range an.Calls(fn, false) {
+		if !an.IsBuiltinCall(cl.Value(), "append") || len(cl.Common().Args) != 2 {
+			continue
+		}
+		elems := variadicElems(cl.Common().Args[1])
+		isCPU := len(elems) > 0
+		for _, e := range elems {
+			if !strings.HasSuffix(an.Path(e), ".CPUID") {
+				isCPU = false
+			}
+		}
+		if !isCPU {
+			continue
+		}
+		n++
+		key := sprintf("%s/pick#%d", fkey(fn), n)
+		marked := map[string]bool{}
+		dec := int64(0)
+		for _, in := range cl.Block().Instrs {
+			switch x := in.(type) {
+			case *ssa.MapUpdate:
+				if x.Map.Type().String() == "map[int32]bool" && isTrueConst(x.Value) {
+					marked[an.Path(x.Key)] = true
+				}
+			case *ssa.BinOp:
+				if k, isC := constIntOf(x.Y); isC && x.Op == token.SUB {
+					if phi, ok := x.X.(*ssa.Phi); ok && strings.Contains(phi.Comment, "needCPUs") {
+						dec = k
+					}
+				}
+			}
+		}
+		var missing []string
+		for _, e := range elems {
+			if !marked[an.Path(e)] {
+				missing = append(missing, an.Path(e))
+			}
+		}
+		r.Check(len(missing) == 0, "PATH", key+"/marked", c.InstrPos(cl), sprintf("%d appended ids are marked used", len(elems)), "appended CPU id(s) not marked in usedCpu in the same step: "+strings.Join(missing, ", "))
+		r.Check(dec == int64(len(elems)), "PATH", key+"/counted", c.InstrPos(cl), sprintf("needCPUs decreases by %d", len(elems)), sprintf("the step appends %d CPU ids but needCPUs decreases by %d", len(elems), dec))
+	}
+	r.Floor("PATH", "CPU picks in calculateBESuppressCPUSetPolicy", n, 2)
+}
+
+// c10makeAppend: a slice that is filled by append only must start empty.
+func c10makeAppend(c *Ctx, pkgs ...string) {
+	r := c.R
+	r.Rule("SHAPE(make+append): in packages cpusuppress and util/cpuset no slice created by make([]T, n) with a non-zero length is filled only by append (never by index): the result would carry n leading zero values - for CPUSet.ToInt32Slice that doubles the length that adjustByCPUSet uses as the base of the per-round growth limit")
+	n := 0
+	for _, rel := range pkgs {
+		for _, fn := range c.PkgFuncs(rel) {
+			for _, b := range fn.Blocks {
+				for _, in := range b.Instrs {
+					mk, ok := in.(*ssa.MakeSlice)
+					if !ok {
+						continue
+					}
+					n++
+					if k, isC := constIntOf(mk.Len); isC && k == 0 {
+						continue
+					}
+					appended, filled := false, false
+					seen := map[ssa.Value]bool{}
+					var walk func(v ssa.Value)
+					walkCell := func(cell ssa.Value) {
+						// loads of the cell here and in closures that capture it
+						var loads func(addr ssa.Value)
+						loads = func(addr ssa.Value) {
+							if addr.Referrers() == nil {
+								return
+							}
+							for _, ref := range *addr.Referrers() {
+								switch x := ref.(type) {
+								case *ssa.UnOp:
+									walk(x)
+								case *ssa.MakeClosure:
+									for i, bnd := range x.Bindings {
+										if bnd == addr {
+											loads(x.Fn.(*ssa.Function).FreeVars[i])
+										}
+									}
+								}
+							}
+						}
+						loads(cell)
+					}
+					walk = func(v ssa.Value) {
+						if seen[v] || v.Referrers() == nil {
+							return
+						}
+						seen[v] = true
+						for _, ref := range *v.Referrers() {
+							switch x := ref.(type) {
+							case *ssa.Phi:
+								walk(x)
+							case *ssa.IndexAddr:
+								for _, r2 := range *x.Referrers() {
+									if st, ok := r2.(*ssa.Store); ok && st.Addr == ssa.Value(x) {
+										filled = true
+									}
+								}
+							case *ssa.Store:
+								if x.Val == v {
+									if _, isCell := x.Addr.(*ssa.Alloc); isCell {
+										walkCell(x.Addr)
+									} else if _, isFV := x.Addr.(*ssa.FreeVar); isFV {
+										walkCell(x.Addr)
+									}
+								}
+							case *ssa.Call:
+								switch {
+								case an.IsBuiltinCall(x, "append") && x.Call.Args[0] == v:
+									appended = true
+									walk(x)
+								case an.IsBuiltinCall(x, "copy") && x.Call.Args[0] == v:
+									filled = true
+								}
+							case *ssa.Slice:
+								walk(x)
+							}
+						}
+					}
+					walk(mk)
+					if appended {
+						r.Check(filled, "SHAPE", fkey(fn)+"/make-then-append", c.InstrPos(mk), "", "make([]T, n) with a non-zero length is filled by append only: the slice starts with n zero values and ends up longer than the data")
+					}
+				}
+			}
+		}
+	}
+	r.Floor("SHAPE", "make([]T, ...) sites examined", n, 6)
+	r.OK("SHAPE", "make+append/sweep", "", sprintf("%d make sites examined, none is a non-empty slice filled by append only", n))
 }
 
 // c10sysfloor: the system usage handed to the budget is floored by the node reservation on every path.
